@@ -15,6 +15,7 @@
 package autofile
 
 import (
+	"github.com/dappledger/AnnChain/gemmill/utils/verifhook"
 	"os"
 	"sync"
 	"time"
@@ -109,6 +110,10 @@ func (af *AutoFile) Write(b []byte) (n int, err error) {
 		}
 	}
 
+	if cut, die := verifhook.Cut("autofile.Write", b); die {
+		af.file.Write(cut)
+		verifhook.Die()
+	}
 	n, err = af.file.Write(b)
 	return
 }
